@@ -33,6 +33,7 @@ from __future__ import annotations
 
 from hypothesis import strategies as st
 
+from pav import cmdref, cmdrun
 from pav import console as con
 from pav import harness, refcodec, refproto, sockops
 from pav.harness import Stats, Violation, drive, given_test
@@ -375,6 +376,17 @@ def _api_script(draw, gen: int):
         elif what == "update" and "u" not in used:
             used.add("u")
             ops.append(["cmd", "update"])
+        elif what == "damper" and "call" not in used:
+            # the other public commands (all idempotent: 2 retries / 30 s): zone power, damper, zone set-point and AC
+            # set-point; one per case so that its frames are attributable by their reading
+            used.add("call")
+            zs = cmdrun.reachable_zones(inst)
+            opts = [st.integers(10, 35).map(lambda t: ["ac_temp", ac, float(t)])]
+            if zs:
+                z = draw(st.sampled_from(zs))
+                opts += [st.sampled_from(["ON", "OFF"]).map(lambda p: ["zone_power", z, p]),
+                         st.integers(0, 100).map(lambda p: ["zone_damper", z, p])]
+            ops.append(["cmd", "call", draw(st.one_of(*opts))])
         post = draw(st.sampled_from(["adv", "adv_rel30", "adv_rel1", "reset", "none"]))
         if post == "adv":
             ops.append(["advance", draw(st.sampled_from([0.0, 0.125, 1.0, 2.0, 5.0]))])
@@ -457,6 +469,9 @@ def run_api(case, stats: Stats | None):
                 elif op[1] == "power":
                     content, r, L, cls = _power_data(gen, op[2], op[3]), 2, 30.0, "idempotent"
                     coro = acs[op[2]].set_power(api.AcPowerControl.TURN_ON if op[3] else api.AcPowerControl.TURN_OFF)
+                elif op[1] == "call":
+                    content, r, L, cls = None, 2, 30.0, "idempotent"
+                    coro = cmdref.perform(rig, op[2])
                 else:
                     content, r, L, cls = (0x1F, b"\xff\x30"), 2, 30.0, "update"
                     coro = rig.at.check_for_updates()
@@ -549,7 +564,13 @@ def run_api(case, stats: Stats | None):
                     if opens and opens[0][0] < m["a"] + m["L"]:
                         tr2 = rig.net.conns[opens[0][2]]
                         pr = refproto.parse_stream(gen, tr2.tx_bytes())
-                        if not pr.frames or (pr.frames[0].mtype, pr.frames[0].data) != m["content"]:
+                        if m["content"] is None:
+                            # a generic public call: the first frame must be what that call means (independent reading)
+                            exp = cmdref.expected(inst, state, m["op"][2])
+                            first_ok = bool(pr.frames) and exp[0] == "frame" and not cmdref.judge_frame(gen, exp, pr.frames[0])
+                        else:
+                            first_ok = bool(pr.frames) and (pr.frames[0].mtype, pr.frames[0].data) == m["content"]
+                        if not first_ok:
                             got = (hex(pr.frames[0].mtype), pr.frames[0].data.hex()) if pr.frames else None
                             bad("not-resent-first", f"{m['op']}: one transient write failure, next connection at t={opens[0][0]} "
                                                     f"(< {m['a'] + m['L']}), but its first frame is {got}")
